@@ -15,6 +15,7 @@ import (
 	"encoding/json"
 	"fmt"
 	"net/url"
+	"slices"
 	"sort"
 	"strings"
 	"testing"
@@ -364,6 +365,11 @@ func propC03(rec *ev.Recorder) func(t *rapid.T) {
 				if _, isAlias := u.Alias[k]; isAlias {
 					continue
 				}
+				if slices.Contains(u.Standalone, k) {
+					// the resource is reachable both inside its document and on its own: whether the
+					// Loader is asked for it is left open, so it is never made to fail
+					continue
+				}
 				if rapid.IntRange(0, 1).Draw(t, "faulty") == 0 {
 					u.Faults = append(u.Faults, k)
 					for a, p := range u.Alias {
@@ -392,6 +398,7 @@ func propC03(rec *ev.Recorder) func(t *rapid.T) {
 			t.Fatalf("%s", fl.Msg)
 		}
 		rec.ClassIf(u.EmptyRefs, "feature:empty-reference-spelling")
+		rec.ClassIf(len(u.Standalone) > 0, "config:embedded-resource-also-served-standalone")
 		if fl != nil {
 			if u.EmptyRefs && knownOpen("empty-ref-ignored") && strings.Contains(fl.Msg, "empty-reference") {
 				rec.Known("empty-ref-ignored", "\"$ref\": \"\" (RFC 3986: the base URI itself, i.e. the root of the enclosing resource) is treated as no reference at all")
